@@ -4,6 +4,7 @@ import (
 	"bytes"
 	"encoding/json"
 	"fmt"
+	"io"
 	"strings"
 
 	redact "github.com/cockroachdb/redact"
@@ -103,7 +104,7 @@ func c06Value(d Directive, v *Val, wi int, seen func(string)) string {
 		if !allEnveloped(o) {
 			return fmt.Sprintf("%s = %q: under an outermost Unsafe everything must lie inside envelopes", desc, out)
 		}
-	} else if !v.Own && !strings.Contains(v.Name, "panic") {
+	} else if (!v.Own || v.WrapOnly) && !strings.Contains(v.Name, "panic") {
 		if HasMarker(o) {
 			return fmt.Sprintf("%s = %q: under an outermost Safe a value without own classification must not produce an envelope", desc, out)
 		}
@@ -150,7 +151,7 @@ type c06ScriptCase struct {
 	Verb  int   `json:"verb"`
 }
 
-var c06BodyNames = []string{"SafeString(S)", "UnsafeString(U‹)", "SafeInt(7)", "Write(w)", "Fprintf(state,f%dg,5)", "Print(Safe(PS),pu)", "Printf(lit %s|%v,Safe(PS),pu)", "Print(nested SafeFormatter)", "panic(boom)", "Print(Unsafe(Safe(q)),RedactableString)"}
+var c06BodyNames = []string{"SafeString(S)", "UnsafeString(U‹)", "SafeInt(7)", "Write(w)", "Fprintf(state,f%dg,5)", "Print(Safe(PS),pu)", "Printf(lit %s|%v,Safe(PS),pu)", "Print(nested SafeFormatter)", "panic(boom)", "Print(Unsafe(Safe(q)),RedactableString)", "SafeRune(,)", "SafeByte(;)", "SafeBytes(sb)", "SafeUint(8)", "SafeFloat(2.5)", "UnsafeRune(é)", "UnsafeByte(u)", "UnsafeBytes(ub)", "io.WriteString(ws)"}
 
 func c06RunBody(p redact.SafePrinter, body []int) {
 	for _, b := range body {
@@ -175,6 +176,24 @@ func c06RunBody(p redact.SafePrinter, body []int) {
 			panic("boom")
 		case 9:
 			p.Print(redact.Unsafe(redact.Safe("q")), redact.RedactableString("r"+mStart+"x"+mEnd))
+		case 10:
+			p.SafeRune(',')
+		case 11:
+			p.SafeByte(';')
+		case 12:
+			p.SafeBytes([]byte("sb"))
+		case 13:
+			p.SafeUint(8)
+		case 14:
+			p.SafeFloat(2.5)
+		case 15:
+			p.UnsafeRune('é')
+		case 16:
+			p.UnsafeByte('u')
+		case 17:
+			p.UnsafeBytes([]byte("ub"))
+		case 18:
+			io.WriteString(p, "ws")
 		}
 	}
 }
